@@ -61,13 +61,14 @@ func noteUncovered(ctx *core.Ctx) {
 
 type misuseCase struct {
 	Op       string `json:"op"`
-	N        int    `json:"n"`                     // term count for multi-scalar ops
-	ZeroPos  int    `json:"zero_pos"`              // index of the zero-valued input position; -1: none (receiver-only zero)
-	ZeroKind int    `json:"zero_kind"`             // 0 new(Point), 1 &Point{}, 2 var, 3 after failed SetBytes, 4 after failed SetExtendedCoordinates
-	Vals     [4]int `json:"vals"`                  // alphabet indices for the other positions
-	NS       int    `json:"ns"`                    // scalar slice length (multi-scalar); -1 = same as N
-	ZeroSc   bool   `json:"zero_scalar,omitempty"` // the scalar paired with the zero-valued point is 0
-	SamePtr  bool   `json:"same_ptr,omitempty"`    // every Point input position holds the SAME zero-valued pointer
+	N        int    `json:"n"`                       // term count for multi-scalar ops
+	ZeroPos  int    `json:"zero_pos"`                // index of the zero-valued input position; -1: none (receiver-only zero)
+	ZeroKind int    `json:"zero_kind"`               // 0 new(Point), 1 &Point{}, 2 var, 3 after failed SetBytes, 4 after failed SetExtendedCoordinates
+	Vals     [4]int `json:"vals"`                    // alphabet indices for the other positions
+	NS       int    `json:"ns"`                      // scalar slice length (multi-scalar); -1 = same as N
+	ZeroSc   bool   `json:"zero_scalar,omitempty"`   // the scalar paired with the zero-valued point is 0
+	SamePtr  bool   `json:"same_ptr,omitempty"`      // every Point input position holds the SAME zero-valued pointer
+	RecvIsIn bool   `json:"recv_is_input,omitempty"` // the receiver is the zero-valued input itself (same pointer)
 }
 
 func zeroPoint(kind int) *edwards25519.Point {
@@ -132,6 +133,9 @@ func runMisuse(c misuseCase) (panicked bool, msg string, recv *edwards25519.Poin
 		}
 	}
 	recv = zeroPoint(c.ZeroKind) // pure receivers are always zero-valued here
+	if c.RecvIsIn && c.ZeroPos >= 0 && c.ZeroPos < len(in) {
+		recv = in[c.ZeroPos]
+	}
 	k1, k2 := mkScalar(alpha.GenericScalar), mkScalar(big.NewInt(8))
 	if c.ZeroSc {
 		k1 = edwards25519.NewScalar()
@@ -199,7 +203,7 @@ var subC15 = core.NewSub("C15/misuse", func(w *core.Worker, c misuseCase) *core.
 	multi := c.Op == "MultiScalarMult" || c.Op == "VarTimeMultiScalarMult"
 	wantPanic := c.ZeroPos >= 0 || (multi && ns != c.N) || (c.SamePtr && misuseInputs(c.Op, c.N) > 0)
 	w.Distinct("outcome", []byte{b2b(panicked)})
-	w.Distinct("nontrivial:cells", []byte(fmt.Sprint(c.Op, c.N, c.ZeroPos, ns, panicked, c.ZeroSc, c.SamePtr)))
+	w.Distinct("nontrivial:cells", []byte(fmt.Sprint(c.Op, c.N, c.ZeroPos, ns, panicked, c.ZeroSc, c.SamePtr, c.RecvIsIn)))
 	if wantPanic && !panicked {
 		if c.ZeroPos >= 0 {
 			return core.Failf("%s (n=%d) did not panic with a zero-value Point (kind %d) at input position %d", c.Op, c.N, c.ZeroKind, c.ZeroPos)
@@ -283,6 +287,9 @@ func runC15(ctx *core.Ctx) {
 			cases = append(cases, misuseCase{Op: o.op, N: o.n, ZeroPos: 0, ZeroKind: zk, SamePtr: true, NS: -1})
 			cases = append(cases, misuseCase{Op: o.op, N: o.n, ZeroPos: 0, ZeroKind: zk, SamePtr: true, ZeroSc: true, NS: -1})
 			for zp := 0; zp < nin; zp++ {
+				// the zero-valued input is also the receiver (a reset of the
+				// receiver before the guard would hide it)
+				cases = append(cases, misuseCase{Op: o.op, N: o.n, ZeroPos: zp, ZeroKind: zk, RecvIsIn: true, Vals: [4]int{1, 2, 3, 0}, NS: -1})
 				for t := 0; t < 4; t++ {
 					cases = append(cases, misuseCase{Op: o.op, N: o.n, ZeroPos: zp, ZeroKind: zk, ZeroSc: true, Vals: [4]int{t, (t + 1) % 4, (t + 2) % 4, (t + 3) % 4}, NS: -1})
 				}
